@@ -1,5 +1,6 @@
 import Driver.Base
 import Driver.ZoneCmds
+import Driver.CacheCmds
 import Resolved.Spec.RefDecode
 
 namespace Resolved.Driver
@@ -108,6 +109,9 @@ def dispatch (fields : List String) : Result :=
     | _, _ => bad "args"
   | ["zone.resolve", z, n, t, impl] => cmdZoneResolve z n t impl
   | ["zones.merge", z, n, t, impl] => cmdZonesMerge z n t impl
+  | ["cache.hist", d, ops, impl] => cmdCacheHist d ops impl false
+  | ["cache.hist-ties", d, ops, impl] => cmdCacheHist d ops impl true
+  | ["cache.inv", _, impl] => cmdCacheInv impl
   | cmd :: _ => bad ("unknown " ++ cmd)
   | [] => bad "empty"
 
